@@ -2,4 +2,4 @@ package main
 
 import "verif/mc/checks"
 
-func main() { checks.C30DebugState(0, []int{7, 11, 12, 15, 23, 24}) }
+func main() { checks.C30DebugState(0, []int{24, 27}) }
